@@ -305,7 +305,7 @@ def c06_forms(rng, n, year_hint=2020):
         ap = "am" if h < 12 else "pm"
         t12 = (":12" + ap) if h12 == 12 else ""
         kinds = ["24", "24z", "12", "12tight", "uhr", "h", "mil", "spoken", "named", "pod",
-                 "12dot", "midnight"]
+                 "12dot", "midnight", "miluhr"]
         k = rng.choice(kinds)
         f = None
         if k == "24":
@@ -336,6 +336,14 @@ def c06_forms(rng, n, year_hint=2020):
             if mi % 5:
                 continue
             f = ("%02d%02d" % (h, mi), "{hh}{mm}")
+        elif k == "miluhr":
+            # four digits followed by a clock word: the military-time heuristics (multiple of
+            # 5, "looks like the current year") do not apply (rules.py:462-466)
+            if rng.random() < 0.5:
+                h = 20            # 20xx: the digits can equal the reference year
+            f = rng.choice([("%02d%02d uhr" % (h, mi), "{hh}{mm} uhr"),
+                            ("%02d%02dh" % (h, mi), "{hh}{mm}h"),
+                            ("%02d%02d Uhr" % (h, mi), "{hh}{mm} uhr")])
         elif k == "spoken":
             if mi not in (15, 30, 45):
                 continue
